@@ -112,7 +112,13 @@ func sumOCSP(ctx context.Context, cert, issuer *x509.Certificate, opts ocsp.Cert
 			} else {
 				rt.Assume(e == int(result.ResultUnknown))
 			}
-			er := rt.NewEnvError("ocsp") // the orchestration never looks at entry errors
+			// lemma C04.L1b: an entry carries no error exactly when it is OK (a Revoked entry carries RevokedError)
+			var er error
+			if e == int(result.ResultRevoked) {
+				er = ocsp.RevokedError{}
+			} else if e != int(result.ResultOK) {
+				er = rt.NewEnvError("ocsp")
+			}
 			r.ServerResults = append(r.ServerResults, &result.ServerResult{Result: result.Result(e), Server: cert.OCSPServer[n-entries+j], Error: er, RevocationMethod: result.RevocationMethodOCSP})
 		}
 	}
